@@ -967,9 +967,9 @@ theorem inv2_ite {α : Type} {p : Prop} [Decidable p] {a b : Conn × α} (ha : I
     Inv2 (if p then a else b).1 := by
   split <;> assumption
 
-theorem inv2_processChannelMessage {c : Conn} (h : Inv2 c) (n : Nat) (m : Msg) :
-    Inv2 (processChannelMessage c n m).1 := by
-  unfold processChannelMessage
+theorem inv2_processPlainMessage {c : Conn} (h : Inv2 c) (n : Nat) (m : Msg) :
+    Inv2 (processPlainMessage c n m).1 := by
+  unfold processPlainMessage
   split
   · exact inv2_sealOut (inv2_pushOut h _)
   · exact inv2_pushOut h _
@@ -992,6 +992,12 @@ theorem inv2_popFifo {c c1 : Conn} {m : Msg} (h : Inv2 c) {lid : Nat}
   · cases hp
   · cases hp
     exact inv2_setLink h _ _
+
+theorem inv2_processChannelMessage {c : Conn} (h : Inv2 c) (n : Nat) (m : Msg) :
+    Inv2 (processChannelMessage c n m).1 :=
+  processChannelMessage_ind (P := Inv2)
+    (fun _ n _ m _ h _ hp => inv2_processPlainMessage (inv2_popFifo h hp) n m)
+    (fun _ h' => inv2_processPlainMessage h' n m) h
 
 theorem inv2_drainFifo {c : Conn} (h : Inv2 c) (fuel n : Nat) : Inv2 (drainFifo fuel c n).1 := by
   induction fuel generalizing c with
